@@ -13,6 +13,9 @@ import (
 	"strings"
 	"time"
 
+	"github.com/ryogrid/SamehadaDB/lib/container/hash"
+	"github.com/ryogrid/SamehadaDB/lib/types"
+
 	"verif/core"
 )
 
@@ -213,8 +216,38 @@ func c11WideDefs() map[string]TableDef {
 	}
 }
 
+// c11CollidingKeys: two different int keys with the same 32-bit hash value (the hash join's table is
+// addressed by it), found with the repository's own hash function; about 84 000 candidates are needed.
+var c11Collide [2]int32
+var c11CollideDone bool
+
+func c11CollidingKeys() [2]int32 {
+	if c11CollideDone {
+		return c11Collide
+	}
+	seen := map[uint32]int32{}
+	for k := int32(1); k < 3000000; k++ {
+		v := types.NewInteger(k)
+		h := hash.HashValue(&v)
+		if o, ok := seen[h]; ok {
+			c11Collide = [2]int32{o, k}
+			c11CollideDone = true
+			return c11Collide
+		}
+		seen[h] = k
+	}
+	panic("no colliding int keys below 3000000")
+}
+
 func c11WideContents(name string) map[string][][]any {
 	out := map[string][][]any{}
+	if name == "colliding-hash" {
+		ck := c11CollidingKeys()
+		a, b := ck[0], ck[1]
+		out["lw"] = [][]any{{a, "a1"}, {b, "b1"}, {a, "a2"}, {int32(5), "five"}}
+		out["r"] = [][]any{{a, int32(1)}, {b, int32(2)}, {a, int32(3)}, {int32(7), int32(70)}}
+		return out
+	}
 	rSmall := [][]any{{int32(0), int32(0)}, {int32(1), int32(10)}, {int32(2), int32(20)}, {int32(2), int32(21)}, {int32(7), int32(70)}}
 	switch name {
 	case "wide9":
@@ -236,7 +269,7 @@ func c11WideContents(name string) map[string][][]any {
 	return out
 }
 
-var c11WideNames = []string{"wide9", "medium150", "narrow400"}
+var c11WideNames = []string{"wide9", "medium150", "narrow400", "colliding-hash"}
 
 func c11OpenWide(name string, analysed bool) *c11World {
 	w := &c11World{tabs: map[string]*jTable{}}
@@ -500,7 +533,7 @@ func c11Run(c *core.Ctx) {
 				res.States++
 				for qi, q := range qs2 {
 					// all queries on the smaller contents, a stride on the rest
-					if len(cl)+len(cr) > 3 && (qi+item)%4 != 0 && !c.Thorough() {
+					if len(cl)+len(cr) > 3 && (qi+item)%6 != 0 && !c.Thorough() {
 						continue
 					}
 					check(w, q, st)
@@ -573,7 +606,7 @@ func init() {
 			if tier == "thorough" {
 				return 30 * time.Minute
 			}
-			return 300 * time.Second
+			return 420 * time.Second
 		},
 		Assume: []string{
 			"supported join form (README): INNER JOIN with a single equality in each ON clause; further equalities (the second join of three tables, a second equality between two tables) are written in WHERE; otherwise WHERE is a conjunction of `table.column op constant` leaves",
